@@ -16,14 +16,15 @@ import (
 type serverModel struct {
 	run, stop, serve, closeFn, muxServe *ssa.Function
 
-	accept    *ssa.Call           // listener.Accept() in Run
-	newConn   *ssa.Call           // newConn(...) in Run
-	connGo    *ssa.Go             // go func(){...}() per connection
-	connFn    *ssa.Function       // its target
-	serveCall ssa.CallInstruction // call of serveRequests inside connFn
-	teardown  *ssa.Function       // function containing the call of (*conn).close
-	tdDefer   *ssa.Defer          // the defer in connFn that registers teardown (nil if teardown == connFn)
-	closeCall ssa.CallInstruction // call of (*conn).close inside teardown
+	closeHelper *ssa.Function       // helper of the teardown that calls (*conn).close, when the call is not in the teardown itself
+	accept      *ssa.Call           // listener.Accept() in Run
+	newConn     *ssa.Call           // newConn(...) in Run
+	connGo      *ssa.Go             // go func(){...}() per connection
+	connFn      *ssa.Function       // its target
+	serveCall   ssa.CallInstruction // call of serveRequests inside connFn
+	teardown    *ssa.Function       // function containing the call of (*conn).close
+	tdDefer     *ssa.Defer          // the defer in connFn that registers teardown (nil if teardown == connFn)
+	closeCall   ssa.CallInstruction // call of (*conn).close inside teardown
 
 	loopHead *ssa.BasicBlock // read loop header in serveRequests
 	readReq  *ssa.Call       // c.readRequest(...) in serveRequests
@@ -206,6 +207,35 @@ func (c *Ctx) serverModel() *serverModel {
 				c.R.Fatal("(*conn).close is called more than once in the per-connection goroutine")
 			}
 			m.teardown, m.closeCall, m.tdDefer = f, cs[0], defers[f]
+		}
+	}
+	if m.teardown == nil {
+		// the close may sit in a helper the teardown calls once (`id, err := s.closeConn(conn, done)`): the helper call
+		// then stands for conn.close() in the teardown (it returns only after the close has)
+		for _, f := range cands {
+			for _, ci := range an.Calls(f) {
+				call, ok := ci.(*ssa.Call)
+				if !ok {
+					continue
+				}
+				h := an.StaticCallee(call.Common())
+				if h == nil || !an.InModule(h) || len(h.Blocks) == 0 || h == m.closeFn {
+					continue
+				}
+				cs := callTo(h, G, "(*conn).close")
+				if len(cs) != 1 || !isCall(cs[0]) {
+					continue
+				}
+				// every path through the helper closes
+				if an.Search(an.Entry(h), an.IsReturn, isInstr(cs[0])) != nil {
+					continue
+				}
+				if m.teardown != nil {
+					c.R.Fatal("(*conn).close is called more than once in the per-connection goroutine")
+				}
+				m.teardown, m.closeCall, m.tdDefer = f, call, defers[f]
+				m.closeHelper = h
+			}
 		}
 	}
 	if m.teardown == nil {
